@@ -11,6 +11,7 @@ import (
 	"fmt"
 	"net"
 	"sync"
+	"time"
 
 	"github.com/iDigitalFlame/xmt/c2/cfg"
 	"github.com/iDigitalFlame/xmt/com"
@@ -151,56 +152,33 @@ func VerifC06KeyListenerInit(s *Session, k data.PrivateKey, n *com.Packet) error
 	return s.keyListenerInit(k, "verif", n)
 }
 
-// ---- channel mode (oracle-only scenario): the bodies of the four channel loops, one Packet at a
-// time, in the order of the source.  Only the loop, the deadlines and the goroutines are left out.
+// ---- channel mode: the real loops run on both ends (client session() -> channelRead/channelWrite,
+// server handle() -> conn.start -> channelRead/channelWrite); the shim only switches the client's
+// wish for a channel on and off and lets the harness look at the state.
 
-// VerifC06Conn is the server-side per-connection state of a channel.
-type VerifC06Conn struct{ c *conn }
-
-// VerifC06ChanOpen opens a channel on both ends without running the loops: the real resolve()
-// (what talk() does: conn{host: s, keys: COPY of s.keys}), then the key line and the state line of
-// (*conn).start - `c.keys = c.host.keyValue(); c.host.stateSet(stateChannel)` - copied by hand
-// (start() itself cannot be called: it runs the two loops), and stateChannel on the client Session,
-// which is what session() has set when it enters channelRead/channelWrite.
-func VerifC06ChanOpen(l *Listener, s, client *Session) (*VerifC06Conn, error) {
-	c, err := l.resolve(s, "verif", nil)
-	if err != nil {
-		return nil, err
+// VerifC06ChannelWanted sets what Session.SetChannel(true/false) sets on the client - the
+// stateChannelValue bit, so that session() puts FlagChannel on the NEXT Packet whatever it is - without
+// queueing SetChannel's own Packet; while the channel is wanted the client sleeps one hour between
+// keep-alives (pickWait then only fires when the harness wakes the Session: one idle tick per wake).
+func VerifC06ChannelWanted(s *Session, on bool) {
+	if on {
+		s.state.Set(stateChannelValue)
+		s.sleep = time.Hour
+		return
 	}
-	c.keys = c.host.keyValue()
-	c.host.stateSet(stateChannel)
-	client.state.Set(stateChannel)
-	return &VerifC06Conn{c: c}, nil
+	s.state.Unset(stateChannelValue)
+	s.state.Unset(stateChannelUpdated)
+	s.sleep = 0
 }
 
-// VerifC06ChanClose leaves the channel on both ends.
-func VerifC06ChanClose(v *VerifC06Conn, client *Session) {
-	v.c.host.stateUnset(stateChannel)
-	client.state.Unset(stateChannel)
-}
+// VerifC06InChannel is state.Channel() of a Session.
+func VerifC06InChannel(s *Session) bool { return s.state.Channel() }
 
-// VerifC06ChanConnShare is the share inside the connection-local key copy.
-func (v *VerifC06Conn) VerifC06ChanConnShare() data.SharedKeys { return v.c.keys.Shared() }
-
-// VerifC06ChanClientWrite: body of (*Session).channelWrite for one Packet:
-// next(false) - i.e. the REAL pick() with stateChannel set: when nothing is queued it starts
-// pickWait and blocks on the queue -; KeyCrypt(s.keys); writePacket; keyCheckRevert on failure,
-// else keyCheckSync.  Returns the flags of the Packet that was sent.
-func VerifC06ChanClientWrite(s *Session, x net.Conn) (com.Flag, error) {
-	n := s.next(false)
-	if n == nil {
-		return 0, xerr.Sub("no packet", 0)
-	}
-	f := n.Flags
-	n.KeyCrypt(s.keys)
-	if err := writePacket(x, s.w, s.t, n); err != nil {
-		n.Clear()
-		s.keyCheckRevert()
-		return f, err
-	}
-	s.keyCheckSync()
-	n.Clear()
-	return f, nil
+// VerifC06Count is the number of events the handler has recorded and not yet handed out.
+func (m *VerifC06Mux) VerifC06Count() int {
+	m.lock.Lock()
+	defer m.lock.Unlock()
+	return len(m.Got)
 }
 
 // VerifC06PickObs calls the REAL pick(i) repeatedly in one fixed situation and classifies what
@@ -236,49 +214,6 @@ func VerifC06PickObs(s *Session, queued, channel, i bool, max int) int {
 		}
 	}
 	return 3
-}
-
-// VerifC06ChanServerRead: body of (*conn).channelRead for one Packet:
-// readPacket; KeyCrypt(c.keys); c.resolve(..., true); c.process(..., true).
-func VerifC06ChanServerRead(l *Listener, v *VerifC06Conn, x net.Conn) error {
-	n, err := readPacket(x, l.w, l.t)
-	if err != nil {
-		return err
-	}
-	n.KeyCrypt(v.c.keys)
-	if err = v.c.resolve(l.log, v.c.host, l, "verif", n.Tags, true); err != nil {
-		return err
-	}
-	return v.c.process(l.log, l, "verif", n, true)
-}
-
-// VerifC06ChanServerWrite: body of (*conn).channelWrite for one Packet:
-// host.next(false); KeyCrypt(c.keys); writePacket; keyCheckRevert on failure, else keyCheckSync.
-func VerifC06ChanServerWrite(l *Listener, v *VerifC06Conn, x net.Conn) error {
-	n := v.c.host.next(false)
-	if n == nil {
-		return xerr.Sub("no packet", 0)
-	}
-	n.KeyCrypt(v.c.keys)
-	if err := writePacket(x, l.w, l.t, n); err != nil {
-		n.Clear()
-		v.c.host.keyCheckRevert()
-		return err
-	}
-	v.c.host.keyCheckSync()
-	n.Clear()
-	return nil
-}
-
-// VerifC06ChanClientRead: body of (*Session).channelRead for one Packet:
-// readPacket; KeyCrypt(s.keys); receive(s, s.parent, n).
-func VerifC06ChanClientRead(s *Session, x net.Conn) error {
-	n, err := readPacket(x, s.w, s.t)
-	if err != nil {
-		return err
-	}
-	n.KeyCrypt(s.keys)
-	return receive(s, s.parent, n)
 }
 
 // VerifC06Loop is a handle on a running (*Session).listen goroutine.
@@ -318,3 +253,6 @@ func VerifC06Listen(s *Session, p cfg.Profile) *VerifC06Loop {
 
 // VerifC06Errors is the consecutive-error counter of listen() (0 after an exchange that session() reported complete).
 func VerifC06Errors(s *Session) int { return int(s.errors) }
+
+// VerifC06Synced is keys.IsSynced() of a Session.
+func (s *Session) VerifC06Synced() bool { return s.keys.IsSynced() }
